@@ -422,10 +422,26 @@ struct Dumper {
       J.attribute ("id", (int64_t) B->getBlockID ());
       J.attributeBegin ("e");
       J.arrayBegin ();
+      int lastElem = -1;
       for (const CFGElement &El : *B) {
         if (auto CS = El.getAs<CFGStmt> ()) {
-          auto it = stmtIds.find (CS->getStmt ());
-          if (it != stmtIds.end ()) J.value (it->second);
+          const Stmt *St = CS->getStmt ();
+          auto it = stmtIds.find (St);
+          if (it == stmtIds.end ()) {
+            // `int a, b = f ();` is split by the CFG builder into synthetic one-declaration statements
+            if (const auto *DS = dyn_cast<DeclStmt> (St)) {
+              for (auto P : cfg->synthetic_stmts ()) {
+                if (P.first == DS) {
+                  it = stmtIds.find (P.second);
+                  break;
+                }
+              }
+            }
+          }
+          if (it != stmtIds.end () && it->second != lastElem) {
+            J.value (it->second);
+            lastElem = it->second;
+          }
         }
       }
       J.arrayEnd ();
